@@ -457,10 +457,12 @@ class AddonManager:
             # RLV-style OwnerSay?
             if RLVParser.is_rlv_message(message):
                 # RLV allows putting multiple commands into one message, blindly splitting on ",".
-                all_cmds_handled = True
                 chat: str = message["ChatData"]["Message"]
                 source = message["ChatData"]["SourceID"]
-                for command in RLVParser.parse_chat(chat):
+                commands = RLVParser.parse_chat(chat)
+                # An empty command list ("@", "@,,") is not "all commands handled"
+                all_cmds_handled = bool(commands)
+                for command in commands:
                     try:
                         with addon_ctx.push(session, region):
                             handled = cls._call_all_addon_hooks(
